@@ -86,7 +86,7 @@ class Ctx:
 
     # ---------------------------------------------------------------- fan-out
     def fan(self, exe, sub, total, args=(), chunk=None, timeout=120, env=None, tag=None, leaks=False,
-            max_workers=NCPU, prefix="", start=0, cases=None):
+            max_workers=NCPU, prefix="", start=0, cases=None, scan_stderr=None):
         """run `exe sub --seed S --start a --count n ...` over [start,start+total) in parallel"""
         tag = tag or sub
         if cases is not None:
@@ -138,6 +138,11 @@ class Ctx:
             for o in outs:
                 rc, so, se, hung, cmd = o[:5]
                 self._absorb(so, sub, exe, args, prefix)
+                if scan_stderr and se:
+                    m0 = re.search(r"--start (\d+) --count (\d+)", " ".join(cmd))
+                    for sig, msg in scan_stderr(se):
+                        self.violation(sig, msg, {"exe": os.path.basename(exe), "sub": sub, "seed": self.seed,
+                                                  "case": int(m0.group(1)) if m0 else None, "count": int(m0.group(2)) if m0 else 1, "args": list(args)})
                 if rc == 0:
                     continue
                 cur = o[5] if len(o) > 5 else None
@@ -149,7 +154,9 @@ class Ctx:
                         self.inconclusive.append("case %s of %s exceeded the watchdog twice" % (cur, sub))
                     elif again is not None:
                         self.violation(again[0], again[1], replay)
-                elif rc in (97, 98, 99) or re.search(r"/verif/harness/[\w.]+:\d+:\d+: runtime error", se or "") or \
+                elif rc == 75:
+                    pass      # the harness reported a violation itself (V line) and had to stop the process; continue with the next case
+                elif rc in (76, 97, 98, 99) or re.search(r"/verif/harness/[\w.]+:\d+:\d+: runtime error", se or "") or \
                         (rc == 86 and "AddressSanitizer" in (se or "") and "/harness/" in (se or "") and not re.search(r" in \w+ /\S*/(mtbl|libmy|src)/", se or "")):
                     # a sanitizer report whose stacks never enter the library is a defect of the harness itself
                     self.inconclusive.append("harness failure rc=%d in %s case %s: %s" % (rc, sub, cur, se[-300:]))
@@ -292,3 +299,43 @@ def load_known():
         return json.load(open(p)).get("findings", [])
     except Exception:
         return []
+
+
+def tsan_env(extra=None):
+    env = dict(os.environ)
+    env["TSAN_OPTIONS"] = "halt_on_error=0:exitcode=0:report_signal_unsafe=0:history_size=4:second_deadlock_stack=1"
+    env["LC_ALL"] = "C"
+    if extra:
+        env.update(extra)
+    return env
+
+
+def parse_tsan(se, counters=None):
+    """-> list of (signature, message) for data-race reports that involve library code; other report kinds are only counted"""
+    out = []
+    for blk in re.findall(r"WARNING: ThreadSanitizer: .*?(?:SUMMARY: ThreadSanitizer:[^\n]*\n)", se, flags=re.S):
+        kind = re.match(r"WARNING: ThreadSanitizer: ([^\n(]+)", blk).group(1).strip()
+        if counters is not None:
+            counters["tsan.reports." + kind.replace(" ", "_")] = counters.get("tsan.reports." + kind.replace(" ", "_"), 0) + 1
+        if kind != "data race":
+            continue
+        # the two access stacks
+        parts = re.split(r"\n\s*\n", blk)
+        acc = []
+        for part in parts:
+            if re.match(r"\s*(Write|Read|Previous write|Previous read|Atomic write|Atomic read|Previous atomic \w+) of size", part.strip()):
+                fr = re.findall(r"#\d+ (\S+) (/\S+?):\d+", part)
+                # the accessing code is the first frame outside the sanitizer runtime / libc interceptors;
+                # a race whose accessing frames are both harness code (e.g. a user callback's own counter) is not the library's
+                own = [(f, path) for f, path in fr if "/libsanitizer/" not in path and "/sysdeps/" not in path and "/string/" not in path]
+                top = own[0] if own else None
+                acc.append((top[0] if top and re.search(r"/(mtbl|libmy|src)/", top[1]) else None, top))
+        libfuncs = sorted(set(a for a, _ in acc if a))
+        if not libfuncs:
+            if counters is not None:
+                counters["tsan.reports.harness_only_race"] = counters.get("tsan.reports.harness_only_race", 0) + 1
+            continue
+        loc = re.search(r"Location is ([^\n]+)", blk)
+        summ = re.search(r"SUMMARY: ThreadSanitizer: ([^\n]*)", blk)
+        out.append(("C14/data-race/" + "|".join(libfuncs), "ThreadSanitizer: %s; %s" % (summ.group(1) if summ else "data race", (loc.group(1) if loc else "")[:160])))
+    return out
